@@ -28,12 +28,11 @@ Lemma eval_PCon_one q s : eval env (PCon (PCons q PNil)) s = eval env q s.
 Proof. reflexivity. Qed.
 Lemma eval_PCon_many q1 q2 t s :
   eval env (PCon (PCons q1 (PCons q2 t))) s =
-  con_reset (eval_con env false (PCons q1 (PCons q2 t)) s true [] None).
+  con_body false (evals env (PCons q1 (PCons q2 t))) s.
 Proof. reflexivity. Qed.
 Lemma eval_PAdj fields s :
   eval env (PAdj fields) s =
-  eval_adjacent (fun st => con_reset (eval_con env true fields st true [] None))
-                (first_item (con_meta fields)) s.
+  eval_adjacent (con_body true (evals env fields)) (first_item (con_meta fields)) s.
 Proof. reflexivity. Qed.
 Lemma eval_POr a b s : eval env (POr a b) s = or_body (eval env a) (eval env b) s.
 Proof. reflexivity. Qed.
@@ -77,30 +76,47 @@ Proof. reflexivity. Qed.
 Lemma eval_PBoxed q s : eval env (PBoxed q) s = eval env q s.
 Proof. reflexivity. Qed.
 
-Lemma eval_con_nil ff s first acc err :
-  eval_con env ff PNil s first acc err =
-  match err with
-  | Some e => (RErr e, s)
-  | None => (ROk (VTuple (rev acc)), set_current s None)
-  end.
+Lemma evals_nil : evals env PNil = [].
 Proof. reflexivity. Qed.
-
-Lemma eval_con_cons ff q t s first acc err :
-  eval_con env ff (PCons q t) s first acc err =
-  let '(r, s') := eval env q s in
-  match r with
-  | ROk v => eval_con env ff t s' false (v :: acc) err
-  | RErr e =>
-    if ff && first then (RErr e, s')
-    else eval_con env ff t s' false acc (match err with Some _ => err | None => Some e end)
-  | RPanic w => (RPanic w, s')
-  | RFuel => (RFuel, s')
-  end.
+Lemma evals_cons q t : evals env (PCons q t) = eval env q :: evals env t.
 Proof. reflexivity. Qed.
 End Eq.
 
+
+Lemma adj_inner_S ev orig before f this_arg best :
+  adj_inner ev orig before (S f) this_arg best =
+    let '(r, ta) := ev this_arg in
+    match r with
+    | ROk res =>
+      match adjacent_scope ta orig with
+      | ASPanic => AStop (RPanic P_adj_scope) ta
+      | ASSome a b =>
+        match set_scope orig a b with
+        | Some ta' => adj_inner ev orig before f ta' best
+        | None => AStop (RPanic P_set_scope) ta
+        end
+      | ASNone =>
+        match set_scope ta (sc_start orig) (sc_end orig) with
+        | Some fin => AReturn res fin
+        | None => AStop (RPanic P_set_scope) ta
+        end
+      end
+    | RErr err =>
+      if Nat.ltb before (remaining ta) then AStop (RPanic P_sub_overflow) ta
+      else
+        let consumed := before - remaining ta in
+        if Nat.ltb (b_consumed best) consumed then ANext (mkBest consumed ta err) else ANext best
+    | RPanic w => AStop (RPanic w) ta
+    | RFuel => AStop RFuel ta
+    end.
+Proof. reflexivity. Qed.
+
+Lemma adj_inner_O ev orig before this_arg best :
+  adj_inner ev orig before O this_arg best = AStop RFuel this_arg.
+Proof. reflexivity. Qed.
+
 Global Arguments eval : simpl never.
-Global Arguments eval_con : simpl never.
+Global Arguments evals : simpl never.
 Global Arguments run_sub : simpl never.
 
 #[global] Hint Rewrite eval_PFlag eval_PArg eval_PPos eval_PAny eval_PCmd eval_PCon_nil eval_PCon_one
